@@ -487,6 +487,18 @@ def replay_entry(w):
             r1, r2 = ex(d), ex(d)
             if canon(d) != before or r1 != r2 or r1 != 3:
                 problems.append(f"TemplateExpression.__call__ modified its input or is not repeatable: {d}, {r1}, {r2}")
+        for shared in (False, True):
+            d = {"a": 7, "b": [1, 2]}
+            before = canon(d)
+            ctx = t.new_context(d, shared=shared, locals={"zz": 5, "a": 6})
+            ctx.vars["q"] = 1
+            ctx.exported_vars.add("q")
+            if canon(d) != before:
+                problems.append(f"Template.new_context(vars, shared={shared}, locals=...) or a store into the new context modified the caller's dict: {d}")
+            der = ctx.derived({"loc": 1})
+            der.vars["w"] = 2
+            if "w" in ctx.vars or "w" in ctx.parent or canon(d) != before:
+                problems.append("a store into a derived context reached the context it was derived from")
         g = env.make_globals(None)
         g["mine"] = 1
         g2 = env.make_globals({"x": 1})
@@ -789,7 +801,7 @@ def emitted_writes_pred(sc, tree, ph, txt):
     if sc.outcome == "raise" or tree is None:
         return []
     fails = []
-    cls_name = getattr(sc.st.get(sc.node).cls, "__name__", "") if getattr(sc, "node", None) is not None else ""
+    cls_name = getattr(sc.st.get(sc.node).cls, "__name__", "") if getattr(sc, "node", None) is not None and hasattr(sc, "st") else ""
     for n in ast.walk(tree):
         targets = []
         if isinstance(n, ast.Assign):
@@ -837,6 +849,14 @@ def emitted_writes_pred(sc, tree, ph, txt):
 def replay_emitted(w):
     """native: compile a family of templates that use every statement kind, scan the REAL generated source with the same
     classifier, then run the histories"""
+    problems = scan_generated_family()
+    bad, det = native_histories()
+    if bad:
+        problems.append(det)
+    return (bool(problems), "; ".join(problems[:3]) or "generated code of the template family writes only per-render stores; histories repeat")
+
+
+def scan_generated_family():
     import jinja2
     env = make_env()
     problems = []
@@ -866,10 +886,49 @@ def replay_emitted(w):
             for why in emitted_writes_pred(S, tree, ph, code):
                 # module-level names of the generated module (name / blocks / debug_info are assigned once at load time)
                 problems.append(f"{name} (async={is_async}): {why}")
-    bad, det = native_histories()
-    if bad:
-        problems.append(det)
-    return (bool(problems), "; ".join(problems[:3]) or "generated code of the template family writes only per-render stores; histories repeat")
+    return problems
+
+
+def generated_family(task, tier, seed):
+    """the REAL generated source of the template family (every statement kind; filters / tests pulled in by pull_dependencies,
+    assignment tracking, frame entry / exit) scanned with the same classifier"""
+    ps = scan_generated_family()
+    task.bound_text = f"{len(TEMPLATES) + len(NS_TEMPLATES) + len(LIB) + 1} templates, sync and async code generation"
+    if ps:
+        return [Res("C29.frame.emitted.generated_family", "refuted", "native", 0, "; ".join(ps[:3])[:900], "bounded", {"key": ps[0][:80]})]
+    return [Res("C29.frame.emitted.generated_family", "bounded-ok", "native", 0, "only per-render stores are written", "bounded")]
+
+
+def helper_emission(task, tier, seed):
+    """the code-emitting helpers that visitors use through markers in the emission runs: pop_assign_tracking (every small tracked
+    set x frame kind), enter_frame / leave_frame (every small load table) - same write rule"""
+    from contracts import c03
+    rs = []
+
+    class SC:
+        pass
+
+    def check(name, scs, wit):
+        for i, sc in enumerate(scs):
+            if sc.outcome == "raise":
+                continue
+            tree, ph, txt = c03.stmts_of(sc)
+            sc.node = None
+            fails = emitted_writes_pred(sc, tree, ph, txt)
+            rs.append(Res(f"C29.frame.emitted.{name}#p{i}", "refuted" if fails else "discharged", "pyvc-emit", 0, "; ".join(fails[:3]), "emission",
+                          dict(wit, schema=sc.describe()[:300]) if fails else None))
+
+    for names in c03.TRACK_SETS:
+        def gen_fields(st, names=names):
+            return {"_assign_stack": st.alloc(HList(items=[st.alloc(HSet(items=list(names)), initial=True)]), initial=True)}
+        check(f"pop_assign_tracking[{','.join(names) or 'empty'}]", c03.run_gen_method("pop_assign_tracking", lambda st, g: [g.frame], gen_fields=gen_fields,
+                                                                                          configure=c03.install_sorted), {"helper": "pop_assign_tracking"})
+    for actions in c03.LOAD_TABLES:
+        if any(a not in (c03.PARAM, c03.RESOLVE, c03.ALIAS, c03.UNDEF) for a in actions):
+            continue
+        check(f"enter_frame[{','.join(actions) or 'empty'}]", c03.run_gen_method("enter_frame", lambda st, g: [g.frame], pre=c03.frame_with_loads(actions)), {"helper": "enter_frame"})
+        check(f"leave_frame[{','.join(actions) or 'empty'}]", c03.run_gen_method("leave_frame", lambda st, g: [g.frame, False], pre=c03.frame_with_loads(actions)), {"helper": "leave_frame"})
+    return rs
 
 
 def emitted_tasks():
@@ -913,6 +972,8 @@ def emitted_tasks():
     tt = TemplateEmitTask("C29", "C29.frame.emitted.visit_Template", template_writes_pred, replay_fn=replay_emitted, min_paths=8, n_blocks=1, n_imports=1)
     tt.bound_text = "template with 1 block and 1 imported name (body abstract)"
     ts.append(tt)
+    ts.append(FnTask("C29", "C29.frame.emitted.helpers", helper_emission, "emission", replay_emitted))
+    ts.append(Bounded("C29", "C29.frame.emitted.generated_family", generated_family, "bounded", replay_emitted))
     return ts
 
 
@@ -1027,6 +1088,8 @@ def replay_histories(w):
     elif n:
         ps = history_problems(["gen"], extra={"gen": n}, data_fn=lambda: {"a": 7, "b": [1, 2], "c": {"k": 1}})
     else:
+        return native_histories(w)
+    if not ps:
         return native_histories(w)
     return (bool(ps), "; ".join(p[2] for p in ps[:2]) or "repeatable")
 
